@@ -71,6 +71,25 @@ def _build(chk, cases_by_tu, cfg, mode, tag, pure=()):
     return out
 
 
+def _canon_cascade(trace):
+    """like k2.canon, but a stop cascade may interleave the callables of a reactive leaf's completion with the
+    other leaves' stop callbacks (delivery order among the callbacks of one stop source is registration order,
+    which the Calc model does not track): maximal runs of 'stopseen'/'call' lines that contain a 'stopseen' are sorted"""
+    body, _, tail = trace.partition(" # ")
+    evs = [x for x in body.split(";") if x and not x.startswith("leak ")]
+    out, run = [], []
+    def flush():
+        out.extend(sorted(run) if any(x.startswith("stopseen ") for x in run) else run)
+        del run[:]
+    for x in evs:
+        if x.startswith("stopseen ") or x.startswith("call "):
+            run.append(x)
+        else:
+            flush(); out.append(x)
+    flush()
+    return ";".join(out) + " # " + tail
+
+
 def _wait_scripts(rng, e, n):
     ls = sorted(set(k2.leaves(e)))
     out = []
@@ -139,7 +158,9 @@ def asyncstack_tie(chk):
                 body, _, tail = io.partition(" # ")
                 plain = ";".join(x for x in body.split(";") if not x.startswith("as ")) + " # " + tail
                 per_cfg_calc[cfg] = per_cfg_calc.get(cfg, 0) + 1
-                if k2.canon(plain) != k2.canon(co) or k2.monitor(plain):
+                if k2.canon(plain) != k2.canon(co) and _canon_cascade(plain) == _canon_cascade(co) and not k2.monitor(plain):
+                    st["calc_cascade_order_tolerated"] = st.get("calc_cascade_order_tolerated", 0) + 1
+                elif k2.canon(plain) != k2.canon(co) or k2.monitor(plain):
                     violation("calc", cfg, e, pre, sc, "calc: trace differs from the Calc model: %s vs %s" % (k2.canon(plain)[:150], k2.canon(co)[:150]),
                               io, exe, line, None, "plain"); continue
                 v, info = k2as.check_run(t, io)
